@@ -216,10 +216,12 @@ Definition alg_is_sm2sm3 (alg : list N) : bool := octets_eq alg alg_sm2sm3 || oc
 Definition opt_nonempty (t : N) (c : list N) : value := match c with [] => None | _ => Some (t, c) end.
 
 (* x509_tbs_cert_to_der *)
-Definition tbs_cert_values (version : Z) (serial issuer : list N) (nb na : N) (subject xy iuid suid exts : list N) : list value :=
+(* [alg]: the AlgorithmIdentifier content the build emits for sm2sign-with-sm3: [alg_sm2sm3], or
+   [alg_sm2sm3_null] when the library is configured with ENABLE_SM2_ALGOR_ID_ENCODE_NULL *)
+Definition tbs_cert_values (alg : list N) (version : Z) (serial issuer : list N) (nb na : N) (subject xy iuid suid exts : list N) : list value :=
   [ (if (version <? 0)%Z then None else Some (T_CTX 0, tlv T_INT (small_int_content (Z.to_N version))));
     Some (T_INT, integer_content serial);
-    Some (T_SEQ, alg_sm2sm3);
+    Some (T_SEQ, alg);
     Some (T_SEQ, issuer);
     Some (T_SEQ, (let '(t1, c1) := time_value nb in tlv t1 c1) ++ (let '(t2, c2) := time_value na in tlv t2 c2));
     Some (T_SEQ, subject);
@@ -233,10 +235,10 @@ Definition req_info_values (version : N) (subject xy attrs : list N) : list valu
   [ Some (T_INT, small_int_content version); Some (T_SEQ, subject); Some (T_SEQ, spki_content xy); Some (T_CTX 0, attrs) ].
 
 (* x509_tbs_crl_to_der; next_update / version: None = absent *)
-Definition tbs_crl_values (version : option N) (issuer : list N) (this_update : N) (next_update : option N)
+Definition tbs_crl_values (alg : list N) (version : option N) (issuer : list N) (this_update : N) (next_update : option N)
            (revoked exts : list N) : list value :=
   [ match version with Some v => Some (T_INT, small_int_content v) | None => None end;
-    Some (T_SEQ, alg_sm2sm3);
+    Some (T_SEQ, alg);
     Some (T_SEQ, issuer);
     Some (time_value this_update);
     match next_update with Some t => Some (time_value t) | None => None end;
@@ -336,4 +338,19 @@ Fixpoint find_by_issuer_serial {A} (l : list (keyed A)) (issuer serial : list N)
   | None :: _ => FErr
   | Some (i, s, a) :: r =>
     if octets_eqb i issuer && octets_eqb s serial then FHit a else find_by_issuer_serial r issuer serial
+  end.
+
+(* ------------------------------------------------------------------ x509_cert_check_crl (src/x509_new.c), wave 3
+   the high-level entry point: fetch the CRL named by the certificate's distribution point, check its
+   freshness and structure, its issuer name against the certificate's, its signature under the CA
+   certificate, then look the certificate's serial number up.  1 only if every step succeeds and the
+   serial is not listed. *)
+Inductive crl_fetch := FetchNoDistributionPoint | FetchFailed | FetchOk.
+Definition cert_check_crl (fetch : crl_fetch) (crl_parses crl_check_ok issuer_match sig_ok : bool)
+           (es : list entry) (serial : list N) : bool :=
+  match fetch with
+  | FetchOk =>
+    crl_parses && crl_check_ok && issuer_match && sig_ok &&
+    match find_revoked es serial with LNotFound => true | _ => false end
+  | _ => false
   end.
